@@ -169,7 +169,7 @@ func checkC02(c *run.Ctx) {
 		what, _, _ := c02Run(c, w.Document, false, all["EdDSA"][0], 1)
 		c.Witness(f, what != "", fmt.Sprintf("%q: %s", w.Document, what))
 	}
-	n := c.N(1500, 25000)
+	n := c.N(1500, 100000)
 	c.Parallel("doc", n, func(i int, r *rand.Rand) {
 		kind := []string{"EdDSA", "EdDSA", "EdDSA", "EdDSA", "EdDSA", "ES512", "PS512", "ES256-signer"}[i%8]
 		kp := all[kind][0]
